@@ -147,7 +147,8 @@ def roundtrip_script(rng, eid, flavor):
         name = "-"
     elif flavor == "lwx":
         rlw = "6.5" if lw == "1.0" else "1.0"
-    words = ["go", "stop", "left"]
+    # spellings that differ only in letter case are different words (Polish / polish, US / us)
+    words = rng.choice([["go", "stop", "left"], ["go", "Go", "GO"], ["us", "US", "left", "Left"], ["a", "A", "b"]])
     build = []
     for _ in range(rng.randint(2, 9)):
         f, t = rng.randrange(ns), rng.randrange(ns)
